@@ -91,119 +91,320 @@ def no_flow_escape(stmts, what):
             need(not isinstance(sub, (ast.Continue, ast.Return, ast.Raise, ast.Yield)), "unexpected control flow in " + what)
 
 
-def seq_actions(stmts, rules, what):
-    """Walk a straight-line statement list (descending into the body of `with` and `try`), map every call to an
-    action through `rules` (callable name -> action | None to ignore); anything conditional or unknown fails closed."""
-    acts = []
+# ---------------------------------------------------------------- tolerant reader of a straight-line cleanup path
+BENIGN_CALLS = ("len", "list", "tuple", "set", "str", "repr", "int", "bool", "time.time", "getattr", "id", "type", "sorted",
+                "sys.exc_info", "errors.format_traceback", "traceback.format_exc", "traceback.format_exception")
 
-    def walk(sts):
-        for st in sts:
-            if isinstance(st, ast.With):
+
+def is_docstring(st):
+    return isinstance(st, ast.Expr) and isinstance(st.value, ast.Constant) and isinstance(st.value.value, str)
+
+
+def benign_expr(node):
+    """an expression whose evaluation does nothing the cleanup depends on (no calls except a few pure builtins / logging)"""
+    for sub in ast.walk(node):
+        if isinstance(sub, ast.Call):
+            n = call_name(sub)
+            on_literal = isinstance(sub.func, ast.Attribute) and isinstance(sub.func.value, ast.Constant) and isinstance(sub.func.value.value, str)
+            if not (is_log_call(sub) or (n in BENIGN_CALLS) or on_literal):     # "".join(tb), "..".format(x): message texts
+                return False
+        if isinstance(sub, (ast.Yield, ast.YieldFrom, ast.Await, ast.Lambda)):
+            return False
+    return True
+
+
+def subst(name, env):
+    """rename the leading identifier of a dotted name through env (parameter of an inlined helper -> caller's expression)"""
+    if name is None:
+        return None
+    head, _, rest = name.partition(".")
+    if head in env and env[head] is not None:
+        return env[head] + ("." + rest if rest else "")
+    return name
+
+
+class Walker:
+    """Reads a statement list as a sequence of cleanup actions.  Tolerated (property-irrelevant) shapes: logging calls and
+    message texts, assignments to local names, `if` statements that only log / update locals, docstrings, calls of private
+    helper methods of the same class (inlined, parameters renamed, a few levels deep), `with <lock>` / `with suppress(...)`,
+    try/except whose handlers only log, try/finally, a trailing `return`.  Everything else fails closed.
+    rules(name, call, env) -> list of actions | None;  assign_rule / for_rule / if_rule are optional site-specific readers.
+    An AGuardEnd marker is emitted at the end of a `try ... except Exception` / suppress(Exception) block that encloses a hook
+    call (a raising hook skips the rest of exactly that block)."""
+    def __init__(self, cls_node, rules, what, assign_rule=None, for_rule=None, if_rule=None):
+        self.cls, self.rules, self.what = cls_node, rules, what
+        self.assign_rule, self.for_rule, self.if_rule = assign_rule, for_rule, if_rule
+        self.inlined = []
+
+    def method(self, name):
+        if self.cls is None:
+            return None
+        m = [n for n in self.cls.body if isinstance(n, ast.FunctionDef) and n.name == name]
+        return m[0] if len(m) == 1 else None
+
+    def fail(self, msg):
+        raise GenError("%s in %s" % (msg, self.what))
+
+    def only_logging(self, stmts):
+        for st in stmts:
+            if isinstance(st, ast.Pass) or is_docstring(st):
+                continue
+            if isinstance(st, ast.Expr) and isinstance(st.value, ast.Call) and (is_log_call(st.value) or self.logging_helper(st.value)):
+                continue
+            if isinstance(st, ast.Try) and not st.finalbody and not st.orelse and self._log_only_try(st) \
+                    and all(self.only_logging(hd.body) for hd in st.handlers):
+                continue
+            if isinstance(st, (ast.Assign, ast.AugAssign, ast.AnnAssign)):
+                tg = st.targets if isinstance(st, ast.Assign) else [st.target]
+                if all(isinstance(t, ast.Name) or (isinstance(t, ast.Tuple) and all(isinstance(e, ast.Name) for e in t.elts)) for t in tg) \
+                        and (getattr(st, "value", None) is None or benign_expr(st.value)):
+                    continue
+            if isinstance(st, ast.If) and benign_expr(st.test) and self.only_logging(st.body) and self.only_logging(st.orelse):
+                continue
+            if isinstance(st, ast.Try) and not st.finalbody and self.only_logging(st.body) and self.only_logging(st.orelse) \
+                    and all(self.only_logging(hd.body) for hd in st.handlers):
+                # e.g. try: peername = conn.sock.getpeername(); log.debug(...) except socket.error: log.debug(...)
+                continue
+            return False
+        return True
+
+    def walk(self, stmts, env, depth=3, top=True):
+        acts = []
+        n = len(stmts)
+        for i, st in enumerate(stmts):
+            if isinstance(st, ast.Pass) or is_docstring(st):
+                continue
+            if isinstance(st, ast.Return):
+                if not (i == n - 1 and top and (st.value is None or benign_expr(st.value))):
+                    self.fail("early / conditional return")
+                break
+            if self.only_logging([st]):
+                # a try whose body only reads things for a log line may hide a getpeername() call: allow those reads
+                continue
+            if isinstance(st, ast.Try) and not st.finalbody and not st.orelse and all(self.only_logging(hd.body) for hd in st.handlers) \
+                    and self._log_only_try(st):
+                continue
+            if isinstance(st, ast.Expr) and isinstance(st.value, ast.Call):
+                acts.extend(self.call(st.value, env, depth))
+            elif isinstance(st, (ast.Assign, ast.AugAssign, ast.AnnAssign)):
+                r = self.assign_rule(st, env) if self.assign_rule else None
+                if r is None:
+                    self.fail("unrecognised assignment")
+                acts.extend(r)
+            elif isinstance(st, ast.With):
                 guards = False
                 for it in st.items:
-                    n = call_name(it.context_expr) or dotted(it.context_expr)
-                    need(n is not None and (n.endswith("suppress") or n.endswith("_lock") or n.endswith("lock")),
-                         "unrecognised context manager in " + what)
-                    if n.endswith("suppress"):
-                        need(any(dotted(a) == "Exception" for a in it.context_expr.args), "suppress(...) of something else than Exception in " + what)
+                    nm = call_name(it.context_expr) or dotted(it.context_expr)
+                    if nm is None or not (nm.endswith("suppress") or nm.endswith("lock")):
+                        self.fail("unrecognised context manager")
+                    if nm.endswith("suppress"):
+                        if not any(dotted(a_) in ("Exception", "BaseException") for a_ in it.context_expr.args):
+                            self.fail("suppress(...) of something narrower than Exception")
                         guards = True
-                walk(st.body)
-                if guards:
-                    acts.append("AGuardEnd")     # an exception raised inside is swallowed here: the rest of the block is skipped
-            elif isinstance(st, ast.Try):
-                need(not st.orelse and not st.finalbody, "try with else/finally in " + what)
-                walk(st.body)
-                for hd in st.handlers:
-                    for s2 in hd.body:
-                        need(isinstance(s2, ast.Expr) and is_log_call(s2.value) or isinstance(s2, ast.Pass),
-                             "except branch in %s does more than logging" % what)
-                # a hook exception is caught here (and only logged): what follows the hook inside this try is skipped
-                if any("Exception" in handler_classes(hd) for hd in st.handlers):
+                body = self.walk(st.body, env, depth, top=False)
+                acts.extend(body)
+                if guards and "AHook" in body:
                     acts.append("AGuardEnd")
-            elif isinstance(st, ast.Expr) and isinstance(st.value, ast.Call):
-                if is_log_call(st.value):
-                    continue
-                a = rules(st.value)
-                need(a is not None, "unrecognised call %s in %s" % (call_name(st.value), what))
-                acts.extend(a)
-            elif isinstance(st, ast.Pass):
-                continue
+            elif isinstance(st, ast.Try):
+                if st.orelse:
+                    self.fail("try with else")
+                body = self.walk(st.body, env, depth, top=False)
+                for hd in st.handlers:
+                    if not self.only_logging(hd.body):
+                        self.fail("an except branch does more than logging")
+                catches = any(c_ in ("Exception", "BaseException") for hd in st.handlers for c_ in handler_classes(hd))
+                acts.extend(body)
+                if "AHook" in body:
+                    if catches:
+                        acts.append("AGuardEnd")      # a raising hook skips the rest of this try body, nothing else
+                    elif st.finalbody:
+                        # try/finally around an unguarded hook: what follows the finally would be skipped: not expressible
+                        if "AGuardEnd" not in body[body.index("AHook"):]:
+                            self.fail("hook call inside try/finally without an `except Exception`")
+                if st.finalbody:
+                    acts.extend(self.walk(st.finalbody, env, depth, top=False))
+            elif isinstance(st, ast.If):
+                r = self.if_rule(st, env, self, depth) if self.if_rule else None
+                if r is None:
+                    self.fail("conditional cleanup (if)")
+                acts.extend(r)
+            elif isinstance(st, ast.For):
+                r = self.for_rule(st, env) if self.for_rule else None
+                if r is None:
+                    self.fail("unrecognised for loop")
+                acts.extend(r)
             else:
-                raise GenError("unrecognised statement %s in %s" % (type(st).__name__, what))
-    walk(stmts)
-    return acts
+                self.fail("unrecognised statement %s" % type(st).__name__)
+        return acts
+
+    def logging_helper(self, call, depth=2):
+        """a private helper of the same class that does nothing but logging (e.g. _logDisconnected(conn))"""
+        n = call_name(call)
+        if not (n and n.startswith("self.") and n.count(".") == 1 and depth > 0):
+            return False
+        m = self.method(n.split(".")[1])
+        if m is None:
+            return False
+        for sub in ast.walk(m):
+            if isinstance(sub, (ast.Return, ast.Raise)) and getattr(sub, "value", None) is not None and isinstance(sub, ast.Return):
+                return False
+            if isinstance(sub, ast.Raise):
+                return False
+        return self.only_logging([st for st in m.body if not (isinstance(st, ast.Return) and st.value is None)])
+
+    def _log_only_try(self, st):
+        # try: <reads for a log line>; log.x(...)  except ...: log.x(...)
+        for s_ in st.body:
+            if isinstance(s_, ast.Expr) and isinstance(s_.value, ast.Call) and is_log_call(s_.value):
+                continue
+            if isinstance(s_, ast.Assign) and all(isinstance(t, ast.Name) for t in s_.targets) and all(
+                    (call_name(c_) or "").endswith(("getpeername", "getsockname")) or is_log_call(c_) or call_name(c_) in BENIGN_CALLS
+                    for c_ in ast.walk(s_.value) if isinstance(c_, ast.Call)):
+                continue
+            return False
+        return True
+
+    def call(self, call, env, depth):
+        if is_log_call(call):
+            return []
+        name = subst(call_name(call), env)
+        r = self.rules(name, call, env)
+        if r is not None:
+            return r
+        if name and name.startswith("self.") and name.count(".") == 1 and depth > 0:
+            m = self.method(name.split(".")[1])
+            if m is not None and not call.keywords:
+                params = [a_.arg for a_ in m.args.args]
+                static = any(dotted(d) == "staticmethod" for d in m.decorator_list)
+                if not static:
+                    params = params[1:]
+                if len(params) != len(call.args):
+                    self.fail("helper %s called with an unexpected number of arguments" % name)
+                new_env = {pn: subst(dotted(arg), env) for pn, arg in zip(params, call.args)}
+                self.inlined.append(m.name)
+                return self.walk(m.body, new_env, depth - 1, top=True)
+        self.fail("unrecognised call %s" % name)
+
+
+def strip_guards(acts):
+    return [a_ for a_ in acts if a_ != "AGuardEnd"]
 
 
 def conn_close_actions(tree):
     mod, _ = parse(tree, "Pyro5/socketutil.py")
+    cls = find_class(mod, "SocketConnection")
     f = find_func(mod, "close", "SocketConnection")
-    acts = []
-    body = list(f.body)
-    # optional docstring
-    if body and isinstance(body[0], ast.Expr) and isinstance(body[0].value, ast.Constant) and isinstance(body[0].value.value, str):
+    body = [st for st in f.body if not is_docstring(st)]
+    # `if self.keep_open: return` + rest   or   `if not self.keep_open: <all of it>`
+    if body and isinstance(body[0], ast.If) and dotted(body[0].test) == "self.keep_open" and len(body[0].body) == 1 \
+            and isinstance(body[0].body[0], ast.Return) and not body[0].orelse:
         body = body[1:]
-    # `if self.keep_open: return`
-    need(body and isinstance(body[0], ast.If) and dotted(body[0].test) == "self.keep_open" and len(body[0].body) == 1
-         and isinstance(body[0].body[0], ast.Return) and not body[0].orelse, "SocketConnection.close: keep_open guard not recognised")
-    for st in body[1:]:
-        if isinstance(st, ast.With):
-            need(all((call_name(it.context_expr) or "").endswith("suppress") for it in st.items),
-                 "SocketConnection.close: unrecognised with")
-            need(len(st.body) == 1 and isinstance(st.body[0], ast.Expr) and isinstance(st.body[0].value, ast.Call),
-                 "SocketConnection.close: unrecognised with body")
-            n = call_name(st.body[0].value)
-            if n == "self.sock.close":
-                acts.append("ASock")
-            elif n == "self.sock.shutdown":
-                pass
-            else:
-                raise GenError("SocketConnection.close: unrecognised call " + str(n))
-        elif isinstance(st, ast.Expr) and isinstance(st.value, ast.Call):
-            n = call_name(st.value)
-            if n == "self.sock.close":
-                acts.append("ASock")
-            elif n == "self.sock.shutdown":
-                pass
-            elif n == "self.tracked_resources.clear":
-                acts.append("AClearRes")
-            elif is_log_call(st.value):
-                pass
-            else:
-                raise GenError("SocketConnection.close: unrecognised call " + str(n))
-        elif isinstance(st, ast.Assign):
-            need(len(st.targets) == 1, "SocketConnection.close: unrecognised assignment")
-            t = dotted(st.targets[0])
-            if t == "self.pyroInstances":
-                need(isinstance(st.value, ast.Dict) and not st.value.keys or
-                     (isinstance(st.value, ast.Call) and call_name(st.value) == "dict" and not st.value.args and not st.value.keywords),
-                     "SocketConnection.close: pyroInstances is not reset to an empty dict")
-                acts.append("ADropInst")
-            elif t == "self.tracked_resources":
-                need(isinstance(st.value, ast.Call) and call_name(st.value) in ("weakref.WeakSet", "set") and not st.value.args,
-                     "SocketConnection.close: tracked_resources reassigned to something unrecognised")
-                acts.append("AClearRes")
-            else:
-                raise GenError("SocketConnection.close: unrecognised assignment to " + str(t))
-        elif isinstance(st, ast.Expr) and isinstance(st.value, ast.Call) and call_name(st.value) == "self.pyroInstances.clear":
-            acts.append("ADropInst")
-        elif isinstance(st, ast.For):
-            need(dotted(st.iter) == "self.tracked_resources" or
-                 (isinstance(st.iter, ast.Call) and call_name(st.iter) in ("list", "tuple", "set") and len(st.iter.args) == 1
-                  and dotted(st.iter.args[0]) == "self.tracked_resources"),
-                 "SocketConnection.close: for loop does not iterate over self.tracked_resources")
-            need(isinstance(st.target, ast.Name) and not st.orelse, "SocketConnection.close: unrecognised for loop")
-            var = st.target.id
-            inner = st.body
-            if len(inner) == 1 and isinstance(inner[0], ast.With):
-                need(all((call_name(it.context_expr) or "").endswith("suppress") for it in inner[0].items),
-                     "SocketConnection.close: unrecognised with in resource loop")
-                inner = inner[0].body
-            need(len(inner) == 1 and isinstance(inner[0], ast.Expr) and call_name(inner[0].value) == var + ".close"
-                 and not inner[0].value.args, "SocketConnection.close: resource loop body is not a single `rsc.close()`")
-            acts.append("ACloseRes")
-        else:
-            raise GenError("SocketConnection.close: unrecognised statement " + type(st).__name__)
+    elif len(body) == 1 and isinstance(body[0], ast.If) and isinstance(body[0].test, ast.UnaryOp) and isinstance(body[0].test.op, ast.Not) \
+            and dotted(body[0].test.operand) == "self.keep_open" and not body[0].orelse:
+        body = body[0].body
+    else:
+        raise GenError("SocketConnection.close: keep_open guard not recognised")
+
+    def rules(name, call, env):
+        if name == "self.sock.close":
+            return ["ASock"]
+        if name == "self.sock.shutdown":
+            return []
+        if name == "self.tracked_resources.clear":
+            return ["AClearRes"]
+        if name == "self.pyroInstances.clear":
+            return ["ADropInst"]
+        return None
+
+    def assign_rule(st, env):
+        if not isinstance(st, ast.Assign) or len(st.targets) != 1:
+            return None
+        t = dotted(st.targets[0])
+        if t == "self.pyroInstances":
+            need(isinstance(st.value, ast.Dict) and not st.value.keys or
+                 (isinstance(st.value, ast.Call) and call_name(st.value) == "dict" and not st.value.args and not st.value.keywords),
+                 "SocketConnection.close: pyroInstances is not reset to an empty dict")
+            return ["ADropInst"]
+        if t == "self.tracked_resources":
+            need(isinstance(st.value, ast.Call) and call_name(st.value) in ("weakref.WeakSet", "set") and not st.value.args,
+                 "SocketConnection.close: tracked_resources reassigned to something unrecognised")
+            return ["AClearRes"]
+        return None
+
+    def is_tracked(node):
+        return dotted(node) == "self.tracked_resources" or (
+            isinstance(node, ast.Call) and call_name(node) in ("list", "tuple", "set", "len") and len(node.args) == 1
+            and dotted(node.args[0]) == "self.tracked_resources")
+
+    def for_rule(st, env):
+        if not (is_tracked(st.iter) and isinstance(st.target, ast.Name) and not st.orelse):
+            return None
+        var = st.target.id
+        inner = [x for x in st.body if not is_docstring(x)]
+        # every single close() must be guarded INSIDE the loop: a raising close() must not keep the others from being closed
+        guarded = False
+        if len(inner) == 1 and isinstance(inner[0], ast.With) and all(
+                (call_name(it.context_expr) or "").endswith("suppress") and any(dotted(a_) in ("Exception", "BaseException") for a_ in it.context_expr.args)
+                for it in inner[0].items):
+            inner, guarded = inner[0].body, True
+        elif len(inner) == 1 and isinstance(inner[0], ast.Try) and not inner[0].orelse and not inner[0].finalbody and any(
+                c_ in ("Exception", "BaseException") for hd in inner[0].handlers for c_ in handler_classes(hd)):
+            w0 = Walker(None, lambda *a_: None, "resource loop")
+            need(all(w0.only_logging(hd.body) for hd in inner[0].handlers), "SocketConnection.close: resource loop handler does more than logging")
+            inner, guarded = inner[0].body, True
+        need(guarded, "SocketConnection.close: a close() that raises would end the resource loop (not guarded inside the loop)")
+        need(len(inner) == 1 and isinstance(inner[0], ast.Expr) and call_name(inner[0].value) == var + ".close"
+             and not inner[0].value.args, "SocketConnection.close: resource loop body is not a single `<resource>.close()`")
+        return ["ACloseRes"]
+
+    def if_rule(st, env, walker, depth):
+        # `if self.tracked_resources:` around the loop and the clear: on an empty set both are no-ops anyway
+        t = st.test
+        if isinstance(t, ast.Compare) and len(t.ops) == 1 and isinstance(t.ops[0], (ast.Gt, ast.NotEq)) and is_tracked(t.left) \
+                and isinstance(t.comparators[0], ast.Constant) and t.comparators[0].value == 0:
+            t = t.left
+        if is_tracked(t) and walker.only_logging(st.orelse):
+            acts = walker.walk(st.body, env, depth, top=False)
+            need(all(a_ in ("ACloseRes", "AClearRes", "AGuardEnd") for a_ in acts),
+                 "SocketConnection.close: socket / instances released only when resources are tracked")
+            return acts
+        return None
+    w = Walker(cls, rules, "SocketConnection.close", assign_rule, for_rule, if_rule)
+    acts = strip_guards(w.walk(body, {}, 3))
     return acts, ast_sha(f)
+
+
+def handler_outcomes(tr, following, what, walker):
+    """for a `try: <call>; [return True] except ...: <log> [return X]` (+ else / following `return X`): per handler, does the
+    function return something falsy (True = falsy).  Also checks that the normal path returns True."""
+    def ret_value(stmts):
+        # value returned by this statement list when run to its end: (found, truthy)
+        for i, st in enumerate(stmts):
+            if isinstance(st, ast.Return):
+                need(i == len(stmts) - 1, what + ": statements after a return")
+                if st.value is None:
+                    return True, False
+                need(isinstance(st.value, ast.Constant), what + ": returns something that is not a constant")
+                return True, bool(st.value.value)
+            need(walker.only_logging([st]) or (isinstance(st, ast.Try) and walker._log_only_try(st) and all(walker.only_logging(hd.body) for hd in st.handlers)),
+                 what + ": an except branch does more than logging")
+        return False, False
+    fol_found, fol_truthy = ret_value(following)
+    # normal path
+    body_tail = [st for st in tr.body[1:]]
+    found, truthy = ret_value(body_tail)
+    if not found:
+        found, truthy = ret_value(tr.orelse)
+    if not found:
+        found, truthy = fol_found, fol_truthy
+    need(found and truthy, what + ": the normal path does not return True")
+    out = []
+    for hd in tr.handlers:
+        found, truthy = ret_value(hd.body)
+        if not found:
+            found, truthy = (fol_found, fol_truthy) if fol_found else (True, False)    # falls off the end: returns None
+        out.append((handler_classes(hd), not truthy))
+    return out
 
 
 def hook_calls(tree):
@@ -275,45 +476,75 @@ def reraise_facts(tree):
 
 def thread_facts(tree, h, close_acts, nhook):
     mod, _ = parse(tree, "Pyro5/svr_threads.py")
+    cls = find_class(mod, "ClientConnectionJob")
     f = find_func(mod, "__call__", "ClientConnectionJob")
-    need(len(f.body) == 1 and isinstance(f.body[0], ast.If) and call_name(f.body[0].test) == "self.handleConnection"
-         and not f.body[0].orelse, "ClientConnectionJob.__call__: `if self.handleConnection():` not recognised")
-    inner = f.body[0].body
-    need(len(inner) == 1 and isinstance(inner[0], ast.Try) and not inner[0].handlers and not inner[0].orelse and inner[0].finalbody,
-         "ClientConnectionJob.__call__: try/finally around the request loop not recognised")
-    tr = inner[0]
-    need(len(tr.body) == 1 and isinstance(tr.body[0], ast.While) and isinstance(tr.body[0].test, ast.Constant)
-         and tr.body[0].test.value is True and not tr.body[0].orelse, "ClientConnectionJob.__call__: `while True:` not recognised")
-    loop = tr.body[0]
-    need(len(loop.body) == 1 and isinstance(loop.body[0], ast.Try) and not loop.body[0].finalbody and not loop.body[0].orelse,
-         "ClientConnectionJob.__call__: loop body is not a single try")
-    ltry = loop.body[0]
-    need(len(ltry.body) == 1 and isinstance(ltry.body[0], ast.Expr) and call_name(ltry.body[0].value) == "self.daemon.handleRequest"
-         and len(ltry.body[0].value.args) == 1 and dotted(ltry.body[0].value.args[0]) == "self.csock",
-         "ClientConnectionJob.__call__: the loop does not just call daemon.handleRequest(self.csock)")
-    ends = {}
+    W = "ClientConnectionJob.__call__"
+    lw = Walker(cls, lambda *a_: None, W)      # used for its "only logging / locals" test
+    body = [st for st in f.body if not is_docstring(st)]
+    # `if self.handleConnection(): <serve>`   or   `if not self.handleConnection(): return` + <serve>
+    if len(body) == 1 and isinstance(body[0], ast.If) and call_name(body[0].test) == "self.handleConnection" and not body[0].orelse:
+        inner = body[0].body
+    elif body and isinstance(body[0], ast.If) and isinstance(body[0].test, ast.UnaryOp) and isinstance(body[0].test.op, ast.Not) \
+            and call_name(body[0].test.operand) == "self.handleConnection" and not body[0].orelse \
+            and len(body[0].body) == 1 and isinstance(body[0].body[0], ast.Return) \
+            and (body[0].body[0].value is None or (isinstance(body[0].body[0].value, ast.Constant) and not body[0].body[0].value.value)):
+        inner = body[1:]
+    else:
+        raise GenError(W + ": the handshake guard (`if self.handleConnection():`) is not recognised")
+    tries = [st for st in inner if isinstance(st, ast.Try)]
+    need(len(tries) == 1 and lw.only_logging([st for st in inner if st is not tries[0]]),
+         W + ": try/finally around the request loop not recognised")
+    tr = tries[0]
+    need(not tr.handlers and not tr.orelse and tr.finalbody, W + ": try/finally around the request loop not recognised")
+    loops = [st for st in tr.body if isinstance(st, ast.While)]
+    need(len(loops) == 1 and lw.only_logging([st for st in tr.body if st is not loops[0]]) and not loops[0].orelse,
+         W + ": request loop not recognised")
+    loop = loops[0]
+
+    def is_handle_request(st):
+        return isinstance(st, ast.Expr) and call_name(st.value) == "self.daemon.handleRequest" and len(st.value.args) == 1 \
+            and dotted(st.value.args[0]) == "self.csock"
     handlers = []
-    for hd in ltry.handlers:
-        last = hd.body[-1]
-        brk = isinstance(last, ast.Break)
-        no_flow_escape(hd.body[:-1] if brk else hd.body, "except branch of the request loop")
-        if not brk:
-            need(not any(isinstance(s, ast.Break) for st in hd.body for s in ast.walk(st)), "break in the middle of an except branch")
-        handlers.append((handler_classes(hd), brk))
+    if isinstance(loop.test, ast.Constant) and loop.test.value is True:
+        # while True: try: daemon.handleRequest(csock) except X: ...; break
+        lt = [st for st in loop.body if isinstance(st, ast.Try)]
+        need(len(lt) == 1 and lw.only_logging([st for st in loop.body if st is not lt[0]]) and not lt[0].finalbody and not lt[0].orelse,
+             W + ": loop body is not a single try")
+        ltry = lt[0]
+        need(ltry.body and is_handle_request(ltry.body[0]) and lw.only_logging(ltry.body[1:]),
+             W + ": the loop does not just call daemon.handleRequest(self.csock)")
+        for hd in ltry.handlers:
+            brk = isinstance(hd.body[-1], ast.Break)
+            rest = hd.body[:-1] if brk else hd.body
+            need(lw.only_logging(rest) or all(lw.only_logging([x]) or (isinstance(x, ast.Try) and lw._log_only_try(x)) for x in rest),
+                 W + ": an except branch of the request loop does more than logging")
+            handlers.append((handler_classes(hd), brk))
+    else:
+        # while self._helper(): pass      with the try/except in the helper, which returns True to go on
+        need(isinstance(loop.test, ast.Call) and (call_name(loop.test) or "").startswith("self.") and not loop.test.args
+             and lw.only_logging(loop.body), W + ": request loop not recognised")
+        hm = lw.method(call_name(loop.test).split(".")[1])
+        need(hm is not None, W + ": loop helper not found")
+        hb = [st for st in hm.body if not is_docstring(st)]
+        ti = [i for i, st in enumerate(hb) if isinstance(st, ast.Try)]
+        need(len(ti) == 1 and lw.only_logging(hb[:ti[0]]) and not hb[ti[0]].finalbody, W + ": loop helper not recognised")
+        ltry = hb[ti[0]]
+        need(ltry.body and is_handle_request(ltry.body[0]), W + ": the loop helper does not call daemon.handleRequest(self.csock)")
+        handlers = handler_outcomes(ltry, hb[ti[0] + 1:], W + " (loop helper)", lw)
+    ends = {}
     for x in EXC:
         i = first_handler(h, ltry.handlers, EXC_CLASS[x])
         # uncaught: the exception leaves the loop through the finally (and is contained by Worker.run)
         ends[x] = True if i is None else handlers[i][1]
 
-    def rules(call):
-        n = call_name(call)
-        if n == "self.daemon._clientDisconnect":
-            need(len(call.args) == 1 and dotted(call.args[0]) == "self.csock", "_clientDisconnect not called with self.csock")
+    def rules(name, call, env):
+        if name == "self.daemon._clientDisconnect":
+            need(len(call.args) == 1 and subst(dotted(call.args[0]), env) == "self.csock", "_clientDisconnect not called with self.csock")
             return ["AHook"] * nhook
-        if n == "self.csock.close":
+        if name == "self.csock.close":
             return list(close_acts)
         return None
-    cleanup = seq_actions(tr.finalbody, rules, "finally of ClientConnectionJob.__call__")
+    cleanup = Walker(cls, rules, "finally of ClientConnectionJob.__call__").walk(tr.finalbody, {}, 3, top=False)
     # the worker slot: Worker.run calls pool.notify_done after the job, whatever the job raised
     w = find_func(mod, "run", "Worker")
     loops = [st for st in w.body if isinstance(st, ast.While)]
@@ -368,7 +599,9 @@ def thread_facts(tree, h, close_acts, nhook):
 
 def mux_facts(tree, h, close_acts, nhook):
     mod, _ = parse(tree, "Pyro5/svr_multiplex.py")
+    cls = find_class(mod, "SocketServer_Multiplex")
     ev = find_func(mod, "events", "SocketServer_Multiplex")
+    lw = Walker(cls, lambda *a_: None, "SocketServer_Multiplex.events")
     fors = [st for st in ev.body if isinstance(st, ast.For)]
     need(len(fors) == 1 and isinstance(fors[0].target, ast.Name) and dotted(fors[0].iter) == ev.args.args[1].arg,
          "events: loop over the event sockets not recognised")
@@ -377,27 +610,53 @@ def mux_facts(tree, h, close_acts, nhook):
               and dotted(st.test.left) == s and len(st.test.ops) == 1 and isinstance(st.test.ops[0], ast.Is)
               and dotted(st.test.comparators[0]) == "self.sock"]
     need(len(branch) == 1, "events: `if s is self.sock` not recognised")
-    els = branch[0].orelse
-    need(len(els) == 2 and isinstance(els[0], ast.Assign) and len(els[0].targets) == 1 and isinstance(els[0].targets[0], ast.Name)
-         and call_name(els[0].value) == "self.handleRequest" and len(els[0].value.args) == 1 and dotted(els[0].value.args[0]) == s,
-         "events: `active = self.handleRequest(s)` not recognised")
-    act = els[0].targets[0].id
-    iff = els[1]
-    need(isinstance(iff, ast.If) and isinstance(iff.test, ast.UnaryOp) and isinstance(iff.test.op, ast.Not)
-         and dotted(iff.test.operand) == act and not iff.orelse, "events: `if not active:` not recognised")
+    # the client-socket part: the else branch, or what follows when the server-socket branch ends with `continue`
+    if branch[0].orelse:
+        part = branch[0].orelse
+    else:
+        need(isinstance(branch[0].body[-1], ast.Continue), "events: the server-socket branch falls through into the client-socket part")
+        part = fors[0].body[fors[0].body.index(branch[0]) + 1:]
 
-    def rules(call):
-        n = call_name(call)
-        if n == "self.daemon._clientDisconnect":
-            need(len(call.args) == 1 and dotted(call.args[0]) == s, "_clientDisconnect not called with the connection")
+    def is_hr(node):
+        return isinstance(node, ast.Call) and call_name(node) == "self.handleRequest" and len(node.args) == 1 and dotted(node.args[0]) == s
+    iff = None
+    rest = []
+    for i, st in enumerate(part):
+        if isinstance(st, ast.Assign) and len(st.targets) == 1 and isinstance(st.targets[0], ast.Name) and is_hr(st.value) \
+                and i + 1 < len(part) and isinstance(part[i + 1], ast.If) and isinstance(part[i + 1].test, ast.UnaryOp) \
+                and isinstance(part[i + 1].test.op, ast.Not) and dotted(part[i + 1].test.operand) == st.targets[0].id:
+            iff = part[i + 1]
+            rest = part[:i] + part[i + 2:]
+            break
+        if isinstance(st, ast.If) and isinstance(st.test, ast.UnaryOp) and isinstance(st.test.op, ast.Not) and is_hr(st.test.operand):
+            iff = st
+            rest = part[:i] + part[i + 1:]
+            break
+    need(iff is not None and not iff.orelse and lw.only_logging(rest),
+         "events: `if not self.handleRequest(s):` (or `active = ...; if not active:`) not recognised")
+
+    def rules(name, call, env):
+        arg0 = subst(dotted(call.args[0]), env) if call.args else None
+        if name == "self.daemon._clientDisconnect":
+            need(len(call.args) == 1 and arg0 == s, "_clientDisconnect not called with the connection")
             return ["AHook"] * nhook
-        if n == "self.selector.unregister":
-            need(len(call.args) == 1 and dotted(call.args[0]) == s, "unregister not called with the connection")
+        if name == "self.selector.unregister":
+            need(len(call.args) == 1 and arg0 == s, "unregister not called with the connection")
             return ["ASlot"]
-        if n == s + ".close":
+        if name == s + ".close":
             return list(close_acts)
         return None
-    cleanup = seq_actions(iff.body, rules, "`if not active:` branch of SocketServer_Multiplex.events")
+    def if_rule(st, env, walker, depth):
+        # `if <conn> in self.selector.get_map(): self.selector.unregister(<conn>)`: a registration that does not exist any
+        # more needs no release
+        t = st.test
+        if isinstance(t, ast.Compare) and len(t.ops) == 1 and isinstance(t.ops[0], ast.In) and subst(dotted(t.left), env) == s \
+                and call_name(t.comparators[0]) == "self.selector.get_map" and walker.only_logging(st.orelse):
+            acts = walker.walk(st.body, env, depth, top=False)
+            if acts == ["ASlot"]:
+                return acts
+        return None
+    cleanup = Walker(cls, rules, "`if not active:` branch of SocketServer_Multiplex.events", if_rule=if_rule).walk(iff.body, {}, 3, top=False)
     for i, a in enumerate(cleanup):
         if a == "AHook":
             need("AGuardEnd" in cleanup[i + 1:], "events: an exception of the disconnect hook would leave the event loop")
@@ -405,24 +664,13 @@ def mux_facts(tree, h, close_acts, nhook):
     need(any(call_name(c) == "self.selector.register" for c in ast.walk(branch[0]) if isinstance(c, ast.Call)),
          "events: accepted connections are not registered")
     hr = find_func(mod, "handleRequest", "SocketServer_Multiplex")
-    tries = [st for st in hr.body if isinstance(st, ast.Try)]
-    need(len(tries) == 1 and not tries[0].finalbody and not tries[0].orelse, "multiplex handleRequest: try not recognised")
-    t0 = tries[0]
-    need(len(t0.body) == 2 and isinstance(t0.body[0], ast.Expr) and call_name(t0.body[0].value) == "self.daemon.handleRequest"
-         and isinstance(t0.body[1], ast.Return) and isinstance(t0.body[1].value, ast.Constant) and t0.body[1].value.value is True,
-         "multiplex handleRequest: body is not `daemon.handleRequest(conn); return True`")
-    for st in hr.body:
-        need(isinstance(st, ast.Try) or (isinstance(st, ast.Expr) and isinstance(st.value, ast.Constant)),
-             "multiplex handleRequest: statements outside the try")
-    handlers = []
-    for hd in t0.handlers:
-        last = hd.body[-1]
-        need(isinstance(last, ast.Return) and isinstance(last.value, ast.Constant) and isinstance(last.value.value, bool),
-             "multiplex handleRequest: an except branch does not end in `return True/False`")
-        for st in hd.body[:-1]:
-            for sub in ast.walk(st):
-                need(not isinstance(sub, (ast.Return, ast.Raise)), "multiplex handleRequest: early return/raise in an except branch")
-        handlers.append((handler_classes(hd), last.value.value is False))
+    hb = [st for st in hr.body if not is_docstring(st)]
+    ti = [i for i, st in enumerate(hb) if isinstance(st, ast.Try)]
+    need(len(ti) == 1 and lw.only_logging(hb[:ti[0]]) and not hb[ti[0]].finalbody, "multiplex handleRequest: try not recognised")
+    t0 = hb[ti[0]]
+    need(t0.body and isinstance(t0.body[0], ast.Expr) and call_name(t0.body[0].value) == "self.daemon.handleRequest",
+         "multiplex handleRequest: the try does not start with daemon.handleRequest(conn)")
+    handlers = handler_outcomes(t0, hb[ti[0] + 1:], "multiplex handleRequest", lw)
     ends = {}
     for x in EXC:
         i = first_handler(h, t0.handlers, EXC_CLASS[x])
